@@ -69,7 +69,7 @@ theorem src_status : Extracted.statusDiscriminants = Life.statusTable := by deci
 
 /-- A full graceful life: spawn, pre_start ok, post_start ok, one message, stop, post_stop. -/
 def demoOps : List AOp :=
-  [.spawn none none true, .resume ⟨[], .ok⟩, .pollSpawn true, .poll, .resume ⟨[.sendSelf 7], .ok⟩, .poll,
+  [.spawn none none true false true, .resume ⟨[], .ok⟩, .pollSpawn true, .poll, .resume ⟨[.sendSelf 7], .ok⟩, .poll,
    .resume ⟨[], .tick⟩, .poll, .stop none, .resume ⟨[], .ok⟩, .poll, .resume ⟨[], .ok⟩, .poll]
 
 example : traceNoSnap 0 demoOps =
@@ -79,7 +79,7 @@ example : traceNoSnap 0 demoOps =
      .enter .postStop .none, .tick .postStop, .exit .postStop .ok, .join .ok] := by decide
 
 /-- A kill while a handler is suspended cancels it; no `post_stop`. -/
-example : traceNoSnap 0 [.spawn none none true, .resume ⟨[], .ok⟩, .pollSpawn true, .poll, .resume ⟨[], .ok⟩,
+example : traceNoSnap 0 [.spawn none none true false true, .resume ⟨[], .ok⟩, .pollSpawn true, .poll, .resume ⟨[], .ok⟩,
       .send 1, .poll, .kill, .poll] =
     [.enter .preStart .none, .tick .preStart, .exit .preStart .ok, .spawnRet .ok,
      .enter .postStart .none, .sendRet false 1 true, .tick .postStart, .exit .postStart .ok,
